@@ -397,6 +397,11 @@ def check_matching(case, v, th, meta, eos, pairs):
     nearJ = -0.05 <= vw - vJ <= 0.005
     v.label(f"vclass:{case['vclass']}", "speed:" + Z.speed_bucket(vw), "landmark-margin" if near else "landmark-free")
     v.info.update(vw=vw, vMin=vmin, cb=cb, vJ=vJ, alN=meta["alN"], psiN=meta["psiN"])
+    if abs(vw - vJ) <= K * (LEVELS["L0"][1] + LEVELS["L0"][0] * vJ):
+        # the two solvers (and the reference) place vJ within their tolerances of each other: which branch a wall
+        # this close to vJ belongs to is not defined to that accuracy
+        v.label("margin:at-vJ")
+        return v.discarded("margin:at-vJ")
     # reference
     ref, why = None, None
     try:
